@@ -35,7 +35,7 @@ fn gen_list(rng: &mut Rng) -> (Vec<(Universal2DBox, Option<f32>)>, f32, Option<f
     };
     let style = *rng.pick(&["clustered", "sparse", "nested", "duplicated", "mixed"]);
     let rotated = rng.chance(0.5);
-    let with_scores = rng.usize(3); // 0 none, 1 all, 2 mixed
+    let with_scores = rng.usize(4); // 0 none, 1 all in 0..1, 2 mixed, 3 all signed (logits / log-probabilities)
     let nclusters = 1 + rng.usize(4);
     let co_oriented = rng.chance(0.35);
     let shared_angle = rng.uniform(0.2, 2.9) as f32;
@@ -89,6 +89,7 @@ fn gen_list(rng: &mut Rng) -> (Vec<(Universal2DBox, Option<f32>)>, f32, Option<f
         let score = match with_scores {
             0 => None,
             1 => Some(rng.f32()),
+            3 => Some(rng.uniform(-12.0, 6.0) as f32),
             _ => {
                 if rng.chance(0.5) {
                     Some(rng.uniform(0.0, 100.0) as f32)
@@ -105,9 +106,19 @@ fn gen_list(rng: &mut Rng) -> (Vec<(Universal2DBox, Option<f32>)>, f32, Option<f
     let st = match rng.usize(4) {
         0 => None,
         1 => Some(-1.0),
-        2 => Some(if with_scores == 1 { rng.f32() } else { rng.uniform(0.0, 100.0) as f32 }),
+        2 => Some(if with_scores == 1 { rng.f32() } else if with_scores == 3 { rng.uniform(-12.0, 6.0) as f32 } else { rng.uniform(0.0, 100.0) as f32 }),
         _ => Some(1000.0),
     };
+    // a tenth of the pixel-scale lists lie far from the origin (geo-referenced coordinates, huge mosaics): the boxes are
+    // translated by a large offset; the reference works on the f32 fields the library receives
+    if scale == 1.0 && rng.chance(0.1) {
+        let (ox, oy) = (rng.range(100, 4000) as f32 * 1024.0, rng.range(-4000, 4000) as f32 * 1024.0);
+        for (b, _) in v.iter_mut() {
+            let mut t = Universal2DBox::new_with_confidence(b.xc + ox, b.yc + oy, b.angle, b.aspect, b.height, b.confidence);
+            std::mem::swap(b, &mut t);
+        }
+        return (v, thr, st, "far-from-origin");
+    }
     if scale != 1.0 {
         return (v, thr, st, match style { "clustered" => "clustered/normalised", "sparse" => "sparse/normalised", "nested" => "nested/normalised", "duplicated" => "duplicated/normalised", _ => "mixed/normalised" });
     }
@@ -117,7 +128,7 @@ fn gen_list(rng: &mut Rng) -> (Vec<(Universal2DBox, Option<f32>)>, f32, Option<f
 fn main() {
     let cli = Cli::parse();
     let mut rep = Report::new("C14", &cli);
-    rep.note("rule", json!("case = list of 0..40 boxes (clustered / sparse / nested / duplicated / mixed, rotated or not - 35% of the rotated lists co-oriented (one shared non-zero angle) -, scores none / all / mixed, ~4% invalid boxes), nms threshold in (0,1), score threshold None / below / inside / above. Outputs are mapped to input indices by pointer identity. Checked: subset & filter, non-increasing rank, top-ranked eligible kept, no kept box covered beyond threshold (+1e-4 band) by an earlier kept box, every dropped eligible box covered beyond threshold (-1e-4 band) by some kept box of rank >= its own, nms(nms(x)) == nms(x). A fifth of the lists are in normalised coordinates (heights 1e-3..1e-1), a quarter carry confidences != 1. Coverage reference = f64 convex intersection / area; 8% of the lists are integer-grid lists whose coverage fractions and threshold are exact binary fractions, judged without band (a box covered by exactly the threshold fraction is NOT suppressed); 10% of the boxes reach their parameters by field writes after gen_vertices(). Non-trivial: at least one box dropped by suppression and at least two kept; distinct by hash of the list."));
+    rep.note("rule", json!("case = list of 0..40 boxes (clustered / sparse / nested / duplicated / mixed, rotated or not - 35% of the rotated lists co-oriented (one shared non-zero angle) -, scores none / all / mixed, ~4% invalid boxes), nms threshold in (0,1), score threshold None / below / inside / above. Outputs are mapped to input indices by pointer identity. Checked: subset & filter, non-increasing rank, top-ranked eligible kept, no kept box covered beyond threshold (+1e-4 band) by an earlier kept box, every dropped eligible box covered beyond threshold (-1e-4 band) by some kept box of rank >= its own, nms(nms(x)) == nms(x). A fifth of the lists are in normalised coordinates (heights 1e-3..1e-1), a quarter carry confidences != 1, a tenth lie 1e5..4e6 away from the origin, a quarter of the scored lists use signed scores. Coverage reference = f64 convex intersection / area; 8% of the lists are integer-grid lists whose coverage fractions and threshold are exact binary fractions, judged without band (a box covered by exactly the threshold fraction is NOT suppressed); 10% of the boxes reach their parameters by field writes after gen_vertices(). Non-trivial: at least one box dropped by suppression and at least two kept; distinct by hash of the list."));
     rep.note("assumptions", json!(["finite scores and coordinates", "rank ties: either order accepted (only non-increasing ranks are required)"]));
     let n = cli.cases(200_000, 2_000_000);
     for idx in cli.index_range(n) {
